@@ -1311,6 +1311,28 @@ def stuck_component_specs():
     return out
 
 
+def shared_pinned_machine_specs():
+    """two or three machine tasks READY together whose parts share one roomy workplace and which name their machines by ID - the same machine, overlapping
+    lists, one task naming none; enough skilled workers for all of them, so only the machine side decides who may start"""
+    out = []
+    pins = ((["F0"], ["F0"]), (["F0"], None), (None, ["F0"]), (["F0", "F1"], ["F0"]), (["F0"], ["F0", "F1"]), (["F1"], ["F0"]), ([], ["F0"]), (["F0"], ["F0"], ["F0"]), (["F0", "F1"], ["F0", "F1"], ["F1"]))
+    for pin in pins:
+        n = len(pin)
+        for nfac in (1, 2):
+            if nfac == 1 and any(p and "F1" in p for p in pin):
+                continue
+            for works in ((3.0, 2.0, 2.0), (1.0, 2.0, 1.0)):
+                names = [tname(i) for i in range(n)]
+                skills = {nm: 1.0 for nm in names}
+                facs = [{"name": "F%d" % j, "skills": dict(skills), "cost": 1.0} for j in range(nfac)]
+                out.append({"tasks": [{"name": names[i], "work": works[i], "nf": True, "fixf": pin[i]} for i in range(n)], "links": [],
+                            "components": [{"name": "C%d" % i, "tasks": [i], "space": 1.0} for i in range(n)],
+                            "workplaces": [{"name": "WP0", "cap": float(n), "targets": list(range(n)), "facilities": facs}],
+                            "teams": [{"name": "TM0", "targets": list(range(n)), "workers": [{"name": "W%d" % j, "skills": dict(skills), "fskills": {"F0": 1.0, "F1": 1.0}, "cost": 1.0} for j in range(n)]}],
+                            "label": "shared-pinned-machine:%s:%d:%s" % (pin, nfac, works[:n])})
+    return out
+
+
 def named_machine_specs():
     """a machine task that names its machine(s) by ID next to a plain task competing for the same worker; two machines share one name"""
     out = []
